@@ -239,3 +239,22 @@ def class_texts(maxlen, final_newline=(True, False)):
                     continue
                 lines = [LINE_CLASSES[k] for k in combo]
                 yield ''.join(combo), '\n'.join(lines) + ('\n' if fn and n else '')
+
+
+def framework_text(rng, minlen=5, maxlen=12):
+    """a sampled sequence of line classes, biased towards the order of a cleartext-signed message (text before, BEGIN, armor
+    headers, blank, body with dash-escaped / armor-like / junk lines, SIGNATURE, base64, END, text after), one line
+    sometimes dropped, random trailing white space; returns (classes, text)"""
+    keys = list(LINE_CLASSES)
+    k = rng.randint(minlen, maxlen)
+    combo = [rng.choice(keys) for _ in range(k)]
+    if rng.random() < 0.7:
+        body = [rng.choice('VDBQJWXQ') for _ in range(rng.randint(0, 5))]
+        sig = [rng.choice('HBAJ') for _ in range(rng.randint(0, 2))]
+        combo = ([rng.choice('BBV') for _ in range(rng.randint(0, 2))] + ['M'] +
+                 [rng.choice('HHJ') for _ in range(rng.randint(0, 2))] + ['B'] + body + ['S'] + sig + ['E'] +
+                 [rng.choice('BBVJ') for _ in range(rng.randint(0, 2))])
+        if rng.random() < 0.4:
+            del combo[rng.randrange(len(combo))]
+    lines = [LINE_CLASSES[c] + rng.choice(['', '', '', ' ', '\t', '\r']) for c in combo]
+    return ''.join(combo), '\n'.join(lines) + rng.choice(['\n', ''])
